@@ -231,6 +231,10 @@ fn shim_copy_raw<'b, W: Write + io::Seek>(src: &mut ZipFileReader<'b>, w: &mut Z
     Ok(len)
 }
 
+impl DateTime {
+//@use dt_datepart nobody
+//@use dt_timepart nobody
+}
 //@impl src/write.rs | impl<W: Write + io::Seek> ZipWriter<W>
 impl<W: Write + io::Seek> ZipWriter<W> {
 //@use zw_raw_copy_file_rename
